@@ -208,6 +208,7 @@ func checkC02(c *Ctx) {
 	c.Cov("traces_validated_against_impl", int64(st.Cases))
 	c.CovSet("exhaustive_upto_leaves", 3)
 	if rejected > 0 {
-		c.Fatal("%d well-formed conditions were rejected by the compiler", rejected)
+		o := rejectedExample.o
+		c.Violate(Violation{What: fmt.Sprintf("%d well-formed conditions were rejected by the compiler (first: %s)", rejected, rejectedExample.err), Source: rejectedExample.src, Opts: &o})
 	}
 }
